@@ -27,8 +27,9 @@
      in self._handlers: handler(event)`                            loop (AsyncEventManager._handler_loop then stops consuming: run stops at Err)
    save_at_each_failed_test_strategy: `if location:` (a           a ReportLocation / Result object has neither __bool__ nor __len__: always true;
      ReportLocation), `result and result.status == "failed"`       result None (setup absent) is falsy.  report.get(location) raising LookupError
-                                                                  cannot happen in a run: the writer has just handled the same End event
-                                                                  and would have raised first -- modelled as `false` (not proved).
+                                                                  cannot happen: the writer has just handled the same End event and the
+                                                                  result is there, finalized (Proofs/SavingP.v end_of_result_found) --
+                                                                  the unreachable branch is modelled as `false`.
 
    The "report" the strategies and the save see is the writer's live state (`wstate`); what is written to the file is its
    normal form (`normalize`, Writer.v) -- the text layer (dump/load) is C09's and is not modelled here. *)
